@@ -146,6 +146,29 @@ func runBDN(c *vf.Check, k combo, n int) {
 				return cl, nil
 			}},
 		}
+		rs = append(rs, route{"after-a-Clone-aggregated-everything", func() (*bdn.Mask, error) {
+			// the object's clone is used for a full aggregation first (an earlier round with other participants)
+			m, err := bdn.NewMask(k.key.Group, pubs, nil)
+			if err != nil {
+				return nil, err
+			}
+			cl := m.Clone()
+			for i := 0; i < n; i++ {
+				_ = cl.SetBit(i, true)
+			}
+			if _, err := sch.AggregateSignatures(sigs, cl); err != nil {
+				return nil, err
+			}
+			if _, err := sch.AggregatePublicKeys(cl); err != nil {
+				return nil, err
+			}
+			for _, i := range set {
+				if err := m.SetBit(i, true); err != nil {
+					return nil, err
+				}
+			}
+			return m, nil
+		}})
 		for _, own := range set {
 			own := own
 			rs = append(rs, route{fmt.Sprintf("NewMask(own key %d)+SetBit", own), func() (*bdn.Mask, error) {
@@ -232,6 +255,15 @@ func runBDN(c *vf.Check, k combo, n int) {
 					return
 				}
 				c.Eval(1)
+				// the second use of the same mask object gives the same aggregates
+				if ak2, err := sch.AggregatePublicKeys(m); err != nil || !bytes.Equal(enc(ak2), enc(ak)) {
+					x.Failf(pk+"/aggregate-not-repeatable", "%s: AggregatePublicKeys on the same mask a second time: %v / another key", id, err)
+					return
+				}
+				if as2, err := sch.AggregateSignatures(ss, m); err != nil || !bytes.Equal(enc(as2), enc(as)) {
+					x.Failf(pk+"/aggregate-not-repeatable", "%s: AggregateSignatures on the same mask and signatures a second time: %v / another aggregate", id, err)
+					return
+				}
 				if !bytes.Equal(enc(ak), refKey[mask]) {
 					x.Failf(pk+"/route-dependent-key", "%s: aggregate key differs from the one of the same mask built with NewMask(nil)+SetBit", id)
 					return
